@@ -76,6 +76,8 @@ impl Vm {
     /// Apply pre-compilation transforms to expr, returning the transformed
     /// AST.
     pub fn transform(&mut self, expr: &Cell) -> Result<Cell, Error> {
+        #[cfg(marwood_verif)]
+        let _depth_guard = crate::verif_depth::Guard::enter(crate::verif_depth::TRANSFORM);
         match expr {
             Cell::Pair(_, _) => self.transform_procedure_application(expr),
             cell => Ok(cell.clone()),
@@ -132,6 +134,8 @@ impl Vm {
         tail: bool,
         expr: &Cell,
     ) -> Result<(), Error> {
+        #[cfg(marwood_verif)]
+        let _depth_guard = crate::verif_depth::Guard::enter(crate::verif_depth::COMPILE);
         match expr {
             Cell::Pair(_, _) => self.compile_procedure_application(lambda, tail, expr),
             Cell::Symbol(_) => self.compile_symbol_expression(lambda, expr),
@@ -656,6 +660,8 @@ impl Vm {
         expr: &Cell,
         mut depth: usize,
     ) -> Result<(), Error> {
+        #[cfg(marwood_verif)]
+        let _depth_guard = crate::verif_depth::Guard::enter(crate::verif_depth::COMPILE);
         //
         // Vector
         //
